@@ -176,6 +176,23 @@ def run(rep, tier, seed):
         if bad:
             rep.violation("fol-loss", bad, {"case": streams.ser(r["prog"]), "failure": bad})
     rep.extra["fol_loss_cases_with_crossing_and_open_rows_in_one_table"] = mixed
+    # ---- Model.train() on first-order models whose tables already hold rows created by inference (implementation only)
+    tcases = [dict(c, facts=[f for f in c["facts"] if f[2] <= f[3]], epochs=3, lr=Fr(1, 8)) for c in fcases[:size(tier, 24, 300)]]
+    trecs = engine.run_cases("fol", "run_fol_train", tcases, chunksize=1)
+    ran = 0
+    for r, c in zip(trecs, tcases):
+        if "crash" in r:
+            rep.bump("harness_crashes")
+            rep.extra.setdefault("first_crash", r["crash"])
+            continue
+        if r["meta"]["errors"]:
+            rep.bump("fol_train_errors")
+            rep.extra.setdefault("first_fol_train_error", r["meta"]["errors"][0])
+            continue
+        ran += 1
+        if r["meta"]["bad"]:
+            rep.violation("fol-train", r["meta"]["bad"], {"case": streams.ser(c), "failure": r["meta"]["bad"]})
+    rep.extra["fol_train_runs"] = ran
     ndis += 1 if fdis is not None else 0
     rep.obligation("correspondence:train", ndis == 0, f"{len(recs)} training runs ({len(scripted)} scripted), {ncmp} lines compared, {ndis} disagree")
     rep.extra["runs_where_projection_clamped_a_weight"] = proj
